@@ -15,7 +15,7 @@ from ..core import fail, seed_eps
 RULE = ('one case = one element of the product (size, spectrum, mass letter, basis, null pattern, requested number, solver, sort, reduced dof) '
         'or one structure; non-trivial = pair with at least two distinct frequencies')
 ASSUMPTIONS = ['ARPACK start vector is random: eigenpairs are judged through residuals and the exactly known frequencies',
-               'requested number restricted to <= active size - 2']
+               'more eigenvalues may be requested than the problem has: whatever comes back must be true pairs']
 SIG_SORT = 'C06:sort-on-values-rounded-to-0.1'
 
 
@@ -77,8 +77,6 @@ def cases(tier, seed):
     for n, spec, massl, basis, nullpat, num, sparse, sort in itertools.product(
             sizes, ['separated', 'close', 'repeated', 'decades'], ['spd', 'scaled', 'tiny'], ['diag', 'rotations', 'generic'],
             ['none', 'first3', 'last3', 'fourth', 'scattered'], [1, 3, 5, 25], [1, 0], [1, 0]):
-        if num > n - 2:
-            continue
         if tier == 'quick':
             if massl in ('scaled', 'tiny') and (basis != 'generic' or nullpat not in ('none', 'fourth', 'scattered')):
                 continue
